@@ -9,6 +9,11 @@ def check(case):
     if case.get('coarse'):
         for f in (5.0, 50.0, 500.0):
             c = dict(case); c['dt'] = f; c['N'] = 5; c['A'] = max(case.get('A', 0.05), 0.5); cases.append(c)
+        for N in (2, 3):
+            T0 = case.get('T0', 333.15) if 273 <= case.get('T0', 333.15) <= 400 else 333.15
+            c = dict(case); c['T0'] = T0; c['program'] = True; c['N'] = N; c['dt'] = 0.05; c['A'] = 0.01
+            c['coefficients'] = [T0, -(T0 + 60.0) / (0.05 * (N - 1))]          # linear programme below 0 K exactly at the last reported step
+            cases.append(c)
     fails = []
     for c in cases:
         try:
@@ -33,4 +38,6 @@ def corpus(seed, n):
     rng = random.Random(seed)
     for c in procs.corpus(seed, min(n, 12)):
         c['dt'] = 10 ** rng.uniform(0, 2.5); c['A'] = 10 ** rng.uniform(-0.5, 1); c['N'] = rng.randint(3, 6); out.append(c)
+    for f in ('ideal_non_isothermal_process', 'non_ideal_non_isothermal_process'):
+        out.append(dict(func=f, coarse=True, mode='vacuum', curves='one'))
     return out
